@@ -1,7 +1,7 @@
 (** C02 — panic-freedom lemmas for Model/Panics.v and for the composed request path. *)
 From Coq Require Import ZifyBool ZifyNat ZifyN.
 From KV Require Import Bytes RustInt RustStd RustStdProofs Panics.
-From KV Require PathSan PathSanProofs Range RangeProofs RangeConn RangeConnProofs Http1Read Hosts HostsProofs Negotiate Cors CacheControl.
+From KV Require PathSan PathSanProofs Range RangeProofs RangeConn RangeConnProofs Http1Read Hosts HostsProofs Negotiate Cors CacheControl Limiter LimiterProofs.
 Open Scope N_scope.
 
 (** * [binary_search_by] stays inside the slice *)
@@ -612,18 +612,49 @@ Proof.
   intros Hf Hc. destruct (RangeConnProofs.conn_step_spec checked caching pg cache q Hf Hc) as [-> _]. discriminate.
 Qed.
 
-Lemma request_path_no_panic grow parse_q checked mode https ops c dh max_len limit public deny caching pg cache stream sched :
-  Hosts.build ops = Ok c -> RangeConn.page_fits pg -> RangeConn.cache_ok pg cache ->
-  request_path grow parse_q checked mode https c dh max_len limit public deny caching pg cache stream sched <> Panic.
+(** The range stage on a page with another status than 200: the status only chooses 206 or not. *)
+Lemma serve_range_any_status_no_panic checked hdr status body :
+  N.of_nat (length body) <= u64_max -> Range.serve_range checked hdr status body <> Panic.
 Proof.
-  intros Hb Hf Hc. unfold request_path.
+  intros Hlen Hp. apply (RangeProofs.serve_range_no_panic checked hdr body Hlen).
+  revert Hp. unfold Range.serve_range. destruct (Range.sanitize_range hdr) as [range|e|]; try discriminate; [|reflexivity].
+  unfold Range.apply_range. destruct range as [[rs re]|]; [|discriminate].
+  destruct (_ <=? rs); [discriminate|].
+  destruct (sub_u64 checked _ 1) as [ei|e|]; cbn [obind]; try discriminate; [|reflexivity].
+  destruct (slice_chk _ _ body) as [sl|e|]; cbn [obind]; try discriminate. reflexivity.
+Qed.
+
+Lemma limiter_decision_ok checked lcfg t0 lh addr now :
+  Limiter.fits (S (length lh)) -> exists a, limiter_decision checked lcfg t0 lh addr now = Ok a.
+Proof.
+  intros Hf. unfold limiter_decision.
+  assert (Hlen : length (lh ++ [(addr, now)]) = S (length lh)) by (rewrite app_length; cbn [length]; lia).
+  pose proof (LimiterProofs.register_no_panic checked lcfg t0 (lh ++ [(addr, now)])) as HF.
+  rewrite Hlen in HF. specialize (HF Hf). rewrite Forall_forall in HF. apply HF. apply nth_In.
+  unfold Limiter.decisions. rewrite LimiterProofs.run_length, Hlen. lia.
+Qed.
+
+Lemma request_path_no_panic grow parse_q checked mode https ops c dh max_len limit lcfg t0 lh addr now public deny caching pg cache stream sched :
+  Hosts.build ops = Ok c -> Limiter.fits (S (length lh)) -> RangeConn.page_fits pg -> RangeConn.cache_ok pg cache ->
+  request_path grow parse_q checked mode https c dh max_len limit lcfg t0 lh addr now public deny caching pg cache stream sched <> Panic.
+Proof.
+  intros Hb Hl Hf Hc. unfold request_path.
   destruct (Http1Read.serve grow mode https dh max_len limit stream sched) as [sv|e|] eqn:Es; try discriminate.
   2:{ exfalso. eapply Reader.serve_no_panic; eassumption. }
   destruct (Hosts.choose_host Hosts.V1 c None _) as [[|h]|e|] eqn:Eh; try discriminate.
   2:{ exfalso. eapply choose_host_no_panic; eassumption. }
+  destruct (limiter_decision_ok checked lcfg t0 lh addr now Hl) as [a ->]. destruct a; try discriminate.
   destruct (PathSan.sanitize_path _) as [[]|e|] eqn:Ep; try discriminate.
   2:{ exfalso. eapply sanitize_path_no_panic; eassumption. }
-  destruct (negb _); [discriminate|].
+  assert (Hgate : forall st body, N.of_nat (length body) <= u64_max ->
+            obind (Range.serve_range checked (Http1Read.hm_get h_range (Http1Read.q_headers (Http1Read.sv_request sv))) st body)
+                  (fun r => Ok (PGate r)) <> Panic).
+  { intros st body Hbody. pose proof (serve_range_any_status_no_panic checked (Http1Read.hm_get h_range (Http1Read.q_headers (Http1Read.sv_request sv))) st body Hbody) as Hn.
+    destruct (Range.serve_range _ _ st body); cbn [obind]; [discriminate|discriminate|exfalso; apply Hn; reflexivity]. }
+  match goal with |- context [if ?b then obind (Range.serve_range _ _ 403 _) _ else _] => destruct b end;
+    [apply Hgate; vm_compute; discriminate|].
+  match goal with |- context [if ?b then obind (Range.serve_range _ _ 204 _) _ else _] => destruct b end;
+    [apply Hgate; vm_compute; discriminate|].
   rewrite pq_path_ok. cbn [obind].
   destruct (pq_query_ok (Http1Read.q_path (Http1Read.sv_request sv)) (Http1Read.q_query (Http1Read.sv_request sv))) as [r ->].
   cbn [obind].
